@@ -7,11 +7,29 @@ import numpy as np
 from .. import gen, impl, oracle, ser, stream
 
 ID = "C10"
-LEVEL = "translation_validation"
-PROPS_MODULE = None
-THEOREMS = []
-LEAN_FILES = []
-PLANNED = ["norm_conj", "conj_conj", "dagger_dagger", "dagger_eq_conj_rev"]
+LEVEL = "proof"
+PROPS_MODULE = "SymmModel.Props.C10"
+THEOREMS = [
+    "SymmModel.C10.oddposDag_involutive",
+    "SymmModel.C10.Index.conj_conj",
+    "SymmModel.C10.Index.conjList_conjList",
+    "SymmModel.C10.Index.map_conj_conj",
+    "SymmModel.C10.Index.conj_dual",
+    "SymmModel.C10.hyps_of_valid",
+    "SymmModel.C10.conjA_conjA",
+    "SymmModel.C10.conjA_conjA_needs_valid",
+    "SymmModel.C10.conjF_conjF",
+    "SymmModel.C10.conjF_conjF_general",
+    "SymmModel.C10.conjF_conjF_elem",
+    "SymmModel.C10.conjT_conjT",
+    "SymmModel.C10.koszul_none_eq_reverse",
+    "SymmModel.C10.dagger_eq_conj_rev",
+    "SymmModel.C10.daggerF_daggerF",
+    "SymmModel.C10.daggerF_daggerF_general",
+    "SymmModel.C10.daggerF_daggerF_blocks"
+]
+LEAN_FILES = ["SymmModel.Props.C10", "SymmModel.Proofs.LazyLemmas"]
+PLANNED = ["norm_conj (tensordot of conj x with x equals sum |x|^2, both orders, odd and even)", "network form of the norm"]
 RULE = ("random fermionic arrays (all symmetries, every dualness pattern, even/odd charge with labels, pending signs, "
         "real/complex): <x|x> through conj (all-ket or phase_dual) in both operand orders equals the exact integer "
         "sum |x|^2; conj/dagger involutions; dagger == transpose(conj) for both settings of phase_dual; 2-3 tensor "
